@@ -480,7 +480,7 @@ Section Strict.
     unfold valid_route. cbn [tl]. rewrite interior_wrap.
     split; [simpl; rewrite app_length; simpl; lia|]. split; [reflexivity|].
     split; [change (O :: cs v ++ [O]) with ((O :: cs v) ++ [O]); apply last_last|].
-    split.
+    assert (Hnd : NoDup (cs v)).
     { apply (NoDup_count_occ Nat.eq_dec). intros x.
       pose proof (proj1 (all_cs_count x)) as Hle.
       assert (Hsub : (count_occ Nat.eq_dec (cs v) x <= count_occ Nat.eq_dec (concat (map cs (seq 0 V))) x)%nat).
@@ -488,7 +488,8 @@ Section Strict.
         apply in_split in Hin. destruct Hin as (l1 & l2 & E). rewrite E, map_app, concat_app. cbn [map concat].
         rewrite !count_occ_app. lia. }
       lia. }
-    split; [apply until_depot_notin0|]. split; [exact Ha|]. split; [exact Ht|apply Hcap].
+    split; [exact Hnd|]. split; [apply until_depot_notin0|]. split; [exact Ha|].
+    split; [exact Ht|apply Hcap; [exact Hnd|apply until_depot_notin0]].
   Qed.
 
   Notation nonempty := (fun cs0 : list nat => match cs0 with [] => false | _ => true end).
